@@ -7,7 +7,7 @@ Local Open Scope N_scope.
 (* for a board with the feature: the handling of a report is the node-table update followed by exactly
    one submission - the mirror - and a flush (no waiting for a manual or timed flush) *)
 Theorem C19_mirror_once : forall w m ty d,
-  m_type m <> MSG_NODE_NEW -> secack_at (w_boards w) (m_addr m) = true ->
+  m_type m <> MSG_NODE_NEW -> m_type m <> MSG_NODE_LOST -> secack_at (w_boards w) (m_addr m) = true ->
   mirror_of (m_type m) (msg_data (m_raw m)) = Some (ty, d) ->
   let f1 := fst (flow_step (w_flow w) (FUp (m_addr m) (m_type m) (last_byte (m_raw m)))) in
   fst (handle_msg w m) = {| w_boards := w_boards w;
@@ -36,12 +36,30 @@ Print Assumptions C19_mirror_position.
 (* boards without the feature (absent, value 0, unknown or disconnected sender) are never sent a mirror;
    other message types are never mirrored *)
 Theorem C19_no_mirror : forall w m,
-  m_type m <> MSG_NODE_NEW -> secack_at (w_boards w) (m_addr m) = false ->
+  m_type m <> MSG_NODE_NEW -> m_type m <> MSG_NODE_LOST -> secack_at (w_boards w) (m_addr m) = false ->
   handle_msg w m = ({| w_boards := w_boards w;
                        w_flow := fst (flow_step (w_flow w) (FUp (m_addr m) (m_type m) (last_byte (m_raw m)))) |},
                     snd (flow_step (w_flow w) (FUp (m_addr m) (m_type m) (last_byte (m_raw m))))).
 Proof. exact no_mirror_without_feature. Qed.
 Print Assumptions C19_no_mirror.
+
+(* the SecAck decision follows the board CURRENTLY connected at the sender's address: after a loss notice the lost board
+   (first with that unique id) is disconnected, so reports from its former address are judged by whoever logs in there *)
+Theorem C19_lost_board_disconnected : forall bs announcer local uid,
+  match find (fun b => list_eqb (sb_uid b) uid) (node_lost bs announcer local uid) with
+  | Some b => sb_conn b = false
+  | None => True
+  end.
+Proof. exact node_lost_first_disconnected. Qed.
+Print Assumptions C19_lost_board_disconnected.
+
+Example C19_address_reuse :
+  let a := {| sb_uid := [1;2;3;4;5;6;7]; sb_secack := false; sb_conn := false; sb_addr := [] |} in
+  let b := {| sb_uid := [9;2;3;4;5;6;7]; sb_secack := true; sb_conn := false; sb_addr := [] |} in
+  let bs1 := node_new [a; b] [] 3 [1;2;3;4;5;6;7] in
+  let bs2 := node_new (node_lost bs1 [] 3 [1;2;3;4;5;6;7]) [] 3 [9;2;3;4;5;6;7] in
+  secack_at bs1 [3] = false /\ secack_at bs2 [3] = true.
+Proof. vm_compute. split; reflexivity. Qed.
 
 Theorem C19_only_reports_mirrored : forall ty data, mirror_of ty data <> None ->
   ty = MSG_BM_OCC \/ ty = MSG_BM_FREE \/ ty = MSG_BM_MULTIPLE \/ ty = MSG_BM_POSITION.
